@@ -162,7 +162,8 @@ def run(ctx):
     ctx.bounds = {'sequence_length': '5/4/4/3 (quick) 6/5/5/4 (thorough) for 1/2/2/3 spines', 'deviations_k': 2 if ctx.quick else 3}
     ctx.assumptions = ['a data line = a line none of whose cells starts with * ! or =; the oracle is indifferent to whether an empty leading measure is numbered']
     jobs = jobs_for(ctx.tier, ctx.seed)
-    ctx.pmap(_job, list(X.chunks(jobs, 100)), chunksize=1)
+    longs = D.long_kern_docs(ctx.seed) + [(['**kern', '**text'], j[1], ctx.seed) for j in D.long_kern_docs(ctx.seed, reps=(4,))[:1]]
+    ctx.pmap(_job, [[j] for j in longs] + list(X.chunks(jobs, 100)), chunksize=1)
 
 
 def replay(case):
